@@ -265,3 +265,41 @@ def while_iteration_counts(g, head, count, cap=3):
                 c = count(p)
                 out |= set(min(cap, x + c) for x in st) if c else set(st)
     return frozenset(out)
+
+
+def value_of(g, stmt_or_expr, frame, depth=0):
+    """(expression, frame) a value really is: follows `x = helper(...)` /
+    `return helper(...)` into a helper that was inlined and has a single
+    return statement."""
+    import ast as _ast
+    ex = stmt_or_expr
+    if depth > 4 or not isinstance(ex, _ast.Call):
+        return ex, frame
+    kids = [c for c in getattr(frame, 'children', ()) if c.call is ex]
+    if len(kids) != 1:
+        return ex, frame
+    callee = kids[0]
+    from ..model import walk_own
+    rets = [r for r in walk_own(callee.ctx.func.node)
+            if isinstance(r, _ast.Return)]
+    if len(rets) != 1 or rets[0].value is None:
+        return ex, frame
+    return value_of(g, rets[0].value, callee, depth + 1)
+
+
+def values_of(g, ex, frame, depth=0):
+    """All (expression, frame) pairs a value may be: follows an inlined
+    helper into each of its return statements."""
+    import ast as _ast
+    if depth > 4 or not isinstance(ex, _ast.Call):
+        return [(ex, frame)]
+    kids = [c for c in getattr(frame, 'children', ()) if c.call is ex]
+    if len(kids) != 1:
+        return [(ex, frame)]
+    callee = kids[0]
+    from ..model import walk_own
+    out = []
+    for r in walk_own(callee.ctx.func.node):
+        if isinstance(r, _ast.Return) and r.value is not None:
+            out += values_of(g, r.value, callee, depth + 1)
+    return out or [(ex, frame)]
